@@ -90,7 +90,10 @@ fn read_alphabet(src: &mut &[u8]) -> io::Result<[bool; ALPHABET_SIZE]> {
 
             for _ in 0..len {
                 alphabet[usize::from(sym)] = true;
-                sym += 1;
+
+                sym = sym.checked_add(1).ok_or_else(|| {
+                    io::Error::new(io::ErrorKind::InvalidData, "invalid alphabet run length")
+                })?;
             }
         }
 
